@@ -242,3 +242,53 @@ def iso_key(desc):
     g.add_nodes_from(range(desc['n']))
     g.add_edges_from([tuple(e) for e in desc['edges']])
     return '%d:%d:%s' % (desc['n'], g.number_of_edges(), nx.weisfeiler_lehman_graph_hash(g, iterations=3)[:12])
+
+
+# ---------------------------------------------------------------- call histories: the same graph object, edited in place between calls
+def make_prehistory(r, desc, k=None):
+    """-> None or {'prev_edges': [...], 'ops': [[edge index, u, old endpoint, new endpoint], ...]}: a *previous* version of the graph
+    (same nodes, same number of edges, some edge ends elsewhere) and the in-place edits that turn it into `desc`.  A harness that calls the
+    library on the previous version first and then edits the very same object exercises whatever the library keeps between calls."""
+    if desc.get('directed') or desc.get('multi') or desc['n'] < 3 or not desc['edges']:
+        return None
+    n = desc['n']
+    edges = [tuple(e) for e in desc['edges']]
+    present = set(frozenset(e) for e in edges)
+    ops = []
+    for _ in range(k or r.randint(1, 3)):
+        i = r.randrange(len(edges))
+        u, v = edges[i]
+        if r.random() < 0.5:
+            u, v = v, u
+        cand = [w for w in range(n) if w != u and w != v and frozenset((u, w)) not in present]
+        if not cand:
+            continue
+        w = r.choice(cand)
+        present.discard(frozenset((u, v)))
+        present.add(frozenset((u, w)))
+        edges[i] = (u, w)
+        ops.append([i, u, w, v])          # undoing it: edge i currently (u, w) goes back to (u, v)
+    if not ops:
+        return None
+    ops.reverse()
+    return {'prev_edges': [list(e) for e in edges], 'ops': ops}
+
+
+def build_graph_with_history(desc, prehistory, warmup):
+    """build the previous version, call warmup(G, lab) on it, then edit the object in place into `desc`."""
+    dprev = dict(desc)
+    dprev['edges'] = [list(e) for e in prehistory['prev_edges']]
+    G, lab = build_graph(dprev)
+    try:
+        warmup(G, lab)
+    except Exception:
+        pass
+    for i, u, old, new in prehistory['ops']:
+        attrs = dict(G.edges[lab(u), lab(old)])
+        G.remove_edge(lab(u), lab(old))
+        G.add_edge(lab(u), lab(new), **attrs)
+    # the result must be the graph described by desc
+    want = set(frozenset((lab(a), lab(b))) for a, b in desc['edges'])
+    got = set(frozenset(e) for e in G.edges())
+    assert want == got, 'prehistory does not lead to the described graph'
+    return G, lab
